@@ -4,7 +4,7 @@
 use super::*;
 use crate::error::timezone::TimeZoneError;
 use crate::error::TzError;
-pub(crate) use super::rule::verif_kani::raw_alt;
+pub(crate) use super::rule::verif_kani::{raw_alt, unix_time_from_parts};
 
 // ------------------------------------------------------------------ shared generators (order of kani::any() calls is
 // part of the interface with lib/engb.py's concrete-playback decoder; keep it stable)
